@@ -367,6 +367,13 @@ func initNetipModels() {
 	pure := func(f func(c *Ctx, m *mctx) *Term) *model {
 		return &model{fn: func(m *mctx) *Term { return f(m.fr.x.c, m) }, note: "net/netip value semantics modelled by construction (Addr = 128 bits + family/zone tag; IPv4 stored as ::ffff:a.b.c.d)"}
 	}
+	models[p+"(Addr).IsLoopback"] = pure(func(c *Ctx, m *mctx) *Term {
+		// 127.0.0.0/8 (also as an IPv4-mapped IPv6 address) or ::1
+		a := m.args[0]
+		v4 := c.Or(c.addrIs4(a), c.addrIs4In6(a))
+		b0 := c.BVBin("bvand", c.BVBin("bvlshr", c.addrLo(a), c.BV(24, 64)), c.BV(0xff, 64))
+		return c.Ite(v4, c.Eq(b0, c.BV(127, 64)), c.And(c.addrIs6(a), c.Eq(c.addrHi(a), c.BV(0, 64)), c.Eq(c.addrLo(a), c.BV(1, 64))))
+	})
 	models[p+"(Addr).Is4"] = pure(func(c *Ctx, m *mctx) *Term { return c.addrIs4(m.args[0]) })
 	models[p+"(Addr).Is6"] = pure(func(c *Ctx, m *mctx) *Term { return c.addrIs6(m.args[0]) })
 	models[p+"(Addr).Is4In6"] = pure(func(c *Ctx, m *mctx) *Term { return c.addrIs4In6(m.args[0]) })
